@@ -75,6 +75,41 @@ Theorem cycles_are_errors : forall (E : env) (main : name) (top : list item) (ct
   (forall fuel, (length E < fuel)%nat -> render fixed_code None fuel E main ctx = Err E_InvalidOperation).
 Proof. exact extends_cycle_proof. Qed.
 
+(* Cycle detection does not depend on what the members of the chain do at their top level.
+   (1) An include / import hands the block table and the record of extended templates back as they
+       were; bodies (blocks, loops, macros) never change the record.
+   (2) One lap: a template that starts with {% extends "p" %} and then does anything at all at its top
+       level (includes, imports, from-imports, macros, loops, blocks) ends that top level with p stashed
+       as parent and with exactly p added to the record - so the next lap through p's own extends tag
+       sees it (missing_parent / the cycle test of load_blocks then apply as in cycles_are_errors).
+   (3) If every template of the environment starts with an extends tag, no render ever succeeds -
+       for every variant of the code, any recursion limit, any fuel, whatever the top levels contain. *)
+Theorem include_keeps_record : forall Q lim E call cur es ign s s',
+  perform_include Q lim E call cur es ign s = Ok s' -> loaded s' = loaded s /\ blocks s' = blocks s.
+Proof. exact include_keeps_record_proof. Qed.
+
+Theorem body_keeps_record : forall Q lim E f cur its s s',
+  icall Q lim E f (TBody cur its) s = Ok s' -> loaded s' = loaded s.
+Proof. exact body_keeps_record_proof. Qed.
+
+Theorem lap_records_parent : forall Q lim E f cur p ptop rest s par' s',
+  find_tmpl E p = Ok (Some ptop) -> memZ p (loaded s) = false ->
+  ilist Q lim E (icall Q lim E f) true cur (IExtends (NLit p) :: rest) None s = Ok (par', s') ->
+  par' = Some ptop /\ loaded s' = loaded s ++ [p].
+Proof. exact lap_records_parent_proof. Qed.
+
+Theorem cycles_never_succeed : forall Q lim E, all_extend E -> forall f cur top s p r,
+  top = IExtends (NLit p) :: r -> forall s', icall Q lim E f (TTemplate cur top) s <> Ok s'.
+Proof. exact cycle_never_ok_general_proof. Qed.
+
+(* a cycle whose members include / import / from-import at their top level: the error, not a hang *)
+Example cycle_with_top_level_include_witness :
+  let E := [ (1, TGood [IExtends (NLit 2); IInclude [NLit 3] false; IImport (NLit 3) 40]);
+             (2, TGood [IExtends (NLit 1); IFrom (NLit 3) [(41, 41)]; IInclude [NLit 9] true]);
+             (3, TGood [IText 201; ISet 41 202]) ] in
+  render fixed_code (Some 500) 50 E 1 [] = Err E_InvalidOperation /\ render fixed_code (Some 500) 50 E 2 [] = Err E_InvalidOperation.
+Proof. vm_compute. split; reflexivity. Qed.
+
 (* A second extends tag that is executed is an error - in every state, for every variant of the
    code, with or without a recursion limit. *)
 Theorem double_extends_is_error : forall Q lim E f cur e1 e2 rest st,
@@ -220,6 +255,10 @@ Print Assumptions inherit_correct_with_limit.
 Print Assumptions super_n.
 Print Assumptions block_map_is_chain.
 Print Assumptions cycles_are_errors.
+Print Assumptions include_keeps_record.
+Print Assumptions body_keeps_record.
+Print Assumptions lap_records_parent.
+Print Assumptions cycles_never_succeed.
 Print Assumptions double_extends_is_error.
 Print Assumptions missing_parent_is_error.
 Print Assumptions unloadable_is_not_missing.
